@@ -1,18 +1,30 @@
 (* Correspondence classifier for C06: outcome classes of the parse / format / process / query
-   steps on malformed input.  Verdicts: 0 Agree | 1 ModelMismatch | 2 PropertyFail | 9 harness. *)
+   steps and of the commands (okane format | balance [-X ..] | register | accounts, in-process
+   and as fresh processes of the built binary) on malformed input.
+   Verdicts: 0 Agree | 1 ModelMismatch | 2 PropertyFail | 9 harness. *)
 From Coq Require Import List NArith ZArith Bool.
-From Okv Require Import Model.Lit Model.Syntax Model.Comb Model.ParseLedger.
+From Okv Require Import Model.Lit Model.Syntax Model.Comb Model.ParseLedger Run.Unpack.
 Import ListNotations.
 Open Scope N_scope.
 
 Inductive outcome := ROk | RErr | RPanic | RTimeout | RAbort | RSkip.
 
-Record obs := { o_parse : outcome; o_format : outcome; o_process : outcome; o_query : outcome }.
+(* o_cli: the commands on the text written to a file, `okane format` first, then the commands
+   that load and book it (balance, balance -X .., register, accounts); [] = not run *)
+Record obs := { o_parse : outcome; o_format : outcome; o_process : outcome; o_query : outcome;
+                o_cli : list outcome }.
 
 Inductive case :=
 | Single (text : list N) (o : obs)
 | Prefixes (text : list N) (os : list obs)       (* os[k] observed on firstn k text, k = 0..length *)
-| LoadCase (o : outcome).                        (* Loader::load / process on an include graph *)
+| LoadCase (fake_load fake : outcome) (real bin : list outcome)
+    (* an include graph: Loader::load, and the worst of load / process / queries, on a
+       FakeFileSystem; the commands on the same files of the real file system, `primitive
+       flatten` (= load) first; the built binary, `primitive flatten` last *)
+| CmdCase (os bin : list outcome)                (* commands in-process / the built binary *)
+| OracleCase (head_len w_head w_whole w_space_tail : nat).
+    (* unicode-width's width_cjk of HEAD, of HEAD ++ " " ++ TAIL and of " " ++ TAIL, HEAD being
+       digits and expression punctuation: the hypotheses of C06_format_total / C06_format_oracles *)
 
 Fixpoint rep (n : nat) (s : list N) : list N :=
   match n with O => [] | S k => s ++ rep k s end.
@@ -22,7 +34,8 @@ Definition crash (o : outcome) : bool :=
 
 (* the property, on what the implementation did: no step panicked, hung or aborted *)
 Definition spec_holds (o : obs) : bool :=
-  negb (crash (o_parse o) || crash (o_format o) || crash (o_process o) || crash (o_query o)).
+  negb (crash (o_parse o) || crash (o_format o) || crash (o_process o) || crash (o_query o)
+        || existsb crash (o_cli o)).
 
 Definition outcome_eqb (a b : outcome) : bool :=
   match a, b with
@@ -39,13 +52,27 @@ Definition model_class (s : list N) : outcome :=
   | LFuel => RSkip
   end.
 
+(* the commands against the model: `okane format` answers as the parser model does, and no
+   command that loads the file succeeds on a text the model rejects *)
+Definition cli_agrees (m : outcome) (cl : list outcome) : bool :=
+  match cl with
+  | [] => true
+  | f :: rest =>
+      outcome_eqb f m &&
+      match m with
+      | RErr => forallb (fun x => negb (outcome_eqb x ROk)) rest
+      | _ => true
+      end
+  end.
+
 (* format = parse + Display: it fails exactly when the parse does; process needs a parse *)
 Definition classify1 (s : list N) (o : obs) : N :=
   if negb (spec_holds o) then 2
   else
     let m := model_class s in
     if outcome_eqb (o_parse o) m && outcome_eqb (o_format o) m &&
-       (match m with RErr => negb (outcome_eqb (o_process o) ROk) | _ => true end)
+       (match m with RErr => negb (outcome_eqb (o_process o) ROk) | _ => true end) &&
+       cli_agrees m (o_cli o)
     then 0 else 1.
 
 Fixpoint classify_prefixes (k : nat) (text : list N) (os : list obs) : list N :=
@@ -59,7 +86,19 @@ Definition classify (c : case) : list N :=
   | Single t o => [classify1 t o]
   | Prefixes t os =>
       if Nat.eqb (length os) (S (length t)) then classify_prefixes 0 t os else [9]
-  | LoadCase o => [if crash o then 2 else 0]
+  | LoadCase fake_load fake real bin =>
+      [if crash fake_load || crash fake || existsb crash real || existsb crash bin then 2
+       else
+         (* loading the same files ends the same way on both file systems and in the binary *)
+         let load_real := match real with f :: _ => [f] | [] => [] end in
+         let load_bin := match rev bin with f :: _ => [f] | [] => [] end in
+         if forallb (outcome_eqb fake_load) (load_real ++ load_bin) then 0 else 1]
+  | CmdCase os bin => [if existsb crash os || existsb crash bin then 2 else 0]
+  | OracleCase head_len w_head w_whole w_space_tail =>
+      (* below its length the printer's subtraction underflows; otherwise ascii_width_ok and
+         space_cut on this sample *)
+      [if Nat.ltb w_whole head_len then 2
+       else if Nat.eqb w_head head_len && Nat.eqb w_whole (head_len + w_space_tail) then 0 else 1]
   end.
 
 Definition verdicts (cs : list case) : list N := flat_map classify cs.
